@@ -17,7 +17,7 @@ from pvx.sym import RSym, unwrap
 
 MANIFEST = dict(
     category="proof",
-    technique="enumeration of the constructor's configuration space (enable masks; literal trip-count loops fully unrolled) with SYMBOLIC parameter values: the real EstimationModel / Parameters code is executed on sympy reals for every mask and the layout, naming, output-matrix, undo, accumulation and variance identities are decided per mask (structurally / in a fraction field); a used model after reset_estimates corrects by the identity again",
+    technique="enumeration of the constructor's configuration space (enable masks; literal trip-count loops fully unrolled) with SYMBOLIC parameter values: the real EstimationModel / Parameters code is executed on sympy reals for every mask and the layout, naming, output-matrix, undo, accumulation and variance identities are decided per mask (structurally / in a fraction field); a used model after reset_estimates corrects by the identity again; Bounded stand-ins shared by all properties (labelled bounded, never counted as proved): the argument-form battery of the modules under contract (batches of 1 and 1200 rows, integer-typed values, labels / columns in other orders, extra labels); where the frame analysis finds state that outlives a call (a cache, a memo) the frame obligation becomes a dynamic purity contract against pristine process states; names the proofs replace by scipy contracts are checked to be bound to the library's functions (else a differential test).",
     text="The estimation model's constructor branches only on which parameters are positive; with symbolic positive values and the masks enumerated, each run is a proof for all parameter values of that mask. quick: loop-modular enumeration (all 27 bias/walk configurations x all 8 noise masks, all 512 scale/misalignment masks, cross terms sampled); thorough: the full product of 27 x 8 x 512 = 110592 masks on 16 processes (complete for the configuration space). Per mask: state names and order, dimensions, P = diag(sd^2), H, G, q, J, v, F are mutually consistent and named exactly like the simulator's parameter table; ValueError iff a walk axis has no bias; output_matrix(r) x equals the simulated reading error b + (T - I) r. For symbolic T (det != 0), bias, readings and IRREGULAR symbolic time stamps: correct_increments with estimates equal to the simulated parameters returns the original increments exactly (increment type; for rate type the part of the increments linear in the readings), also when estimates are accumulated in several updates interleaved with corrections; update(x1); update(x2) equals update(x1 + x2); the coefficients of the random draws give variances noise^2/dt, noise^2 dt and walk^2 (t_k - t_0).",
     note="A1-A6; np.linalg.solve replaced by its contract (A^-1 b, det != 0 required); RNG draws are symbols with unit variance (only their coefficients are used); pandas object-dtype operations executed; quick tier is not the complete product of masks (stated), thorough is.",
 )
